@@ -52,3 +52,78 @@ Theorem C14_pow_neg_contains : forall s p prec x, valid_iv s -> 0 < prec -> in_i
   forall w, mpi_pow_int_pos s (Zpos p) (prec + 20) = Ok w -> ((0 < rv (fst w))%R \/ (rv (snd w) < 0)%R) ->
   exists r, mpi_pow_int s (Zneg p) prec = Ok r /\ in_iv r (1 / x ^ Pos.to_nat p) /\ valid_iv r.
 Proof. exact mpi_pow_int_neg_contains. Qed.
+
+(* exp and log on intervals: the point function (mpf_exp / mpf_log at the working precision prec + 20) is an input of the
+   model; whenever its two values are within a relative 2^(9-wp) of the exact ones (hypothesis `close`, monitored on
+   every sampled call against a high-precision evaluation), the outward step makes the result contain exp x / ln x for
+   every member point x. *)
+From MP Require Import Proofs.IvOutward.
+Theorem C14_outward_floor : forall v prec F, fincanon v -> 0 < prec -> close (prec + 20) (rv v) F ->
+  (rv (mpi_outward v prec RF) <= F)%R /\ fincanon (mpi_outward v prec RF).
+Proof. exact mpi_outward_floor. Qed.
+Theorem C14_outward_ceil : forall v prec F, fincanon v -> 0 < prec -> close (prec + 20) (rv v) F ->
+  (F <= rv (mpi_outward v prec RC))%R /\ fincanon (mpi_outward v prec RC).
+Proof. exact mpi_outward_ceil. Qed.
+Theorem C14_exp_contains : forall s va vb prec x, valid_iv s -> in_iv s x -> 0 < prec -> fincanon va -> fincanon vb ->
+  close (prec + 20) (rv va) (exp (rv (fst s))) -> close (prec + 20) (rv vb) (exp (rv (snd s))) ->
+  in_iv (mpi_exp_from s va vb prec) (exp x) /\ valid_iv (mpi_exp_from s va vb prec).
+Proof. exact mpi_exp_contains. Qed.
+Print Assumptions C14_exp_contains.
+Theorem C14_log_contains : forall s va vb prec x, valid_iv s -> in_iv s x -> (0 < rv (fst s))%R -> 0 < prec -> fincanon va -> fincanon vb ->
+  close (prec + 20) (rv va) (ln (rv (fst s))) -> close (prec + 20) (rv vb) (ln (rv (snd s))) ->
+  in_iv (mpi_log_from va vb prec) (ln x) /\ valid_iv (mpi_log_from va vb prec).
+Proof. exact mpi_log_contains. Qed.
+
+(* cos, sin, tan, cot on intervals: the point values of mpf_cos_sin and the quadrant indices of mod_pi2 at the two end
+   points are inputs of the model (qa = (cos a, sin a, na), qb likewise, at the working precision); under the monitored
+   hypotheses `quad` (the index is right) and `close` (the values are within a relative 2^(9-wp)), the extremum logic, the
+   min/max selection, the outward factor and the clamp to [-1, 1] yield intervals containing cos t and sin t for every
+   member point t; tan and cot follow through the division theorem. *)
+From MP Require Import Proofs.IvTrig.
+Theorem C14_cos_sin_contains : forall s ca sa na cb sb nb prec t, valid_iv s -> in_iv s t -> 0 < prec ->
+  fincanon ca -> fincanon sa -> fincanon cb -> fincanon sb ->
+  quad na (rv (fst s)) -> quad nb (rv (snd s)) ->
+  close (prec + 20) (rv ca) (cos (rv (fst s))) -> close (prec + 20) (rv sa) (sin (rv (fst s))) ->
+  close (prec + 20) (rv cb) (cos (rv (snd s))) -> close (prec + 20) (rv sb) (sin (rv (snd s))) ->
+  let '(Cv, Sv) := mpi_cos_sin_from s (ca, sa, na) (cb, sb, nb) prec in
+  (in_iv Cv (cos t) /\ valid_iv Cv) /\ (in_iv Sv (sin t) /\ valid_iv Sv).
+Proof. exact mpi_cos_sin_contains. Qed.
+Print Assumptions C14_cos_sin_contains.
+Theorem C14_tan_contains : forall s ca sa na cb sb nb prec t, valid_iv s -> in_iv s t -> 0 < prec ->
+  fincanon ca -> fincanon sa -> fincanon cb -> fincanon sb ->
+  quad na (rv (fst s)) -> quad nb (rv (snd s)) ->
+  close (prec + 20 + 20) (rv ca) (cos (rv (fst s))) -> close (prec + 20 + 20) (rv sa) (sin (rv (fst s))) ->
+  close (prec + 20 + 20) (rv cb) (cos (rv (snd s))) -> close (prec + 20 + 20) (rv sb) (sin (rv (snd s))) ->
+  let Cv := fst (mpi_cos_sin_from s (ca, sa, na) (cb, sb, nb) (prec + 20)) in
+  ((0 < rv (fst Cv))%R \/ (rv (snd Cv) < 0)%R) ->
+  exists r, mpi_tan_from s (ca, sa, na) (cb, sb, nb) prec = Ok r /\ in_iv r (tan t) /\ valid_iv r.
+Proof. exact mpi_tan_contains. Qed.
+Theorem C14_cot_contains : forall s ca sa na cb sb nb prec t, valid_iv s -> in_iv s t -> 0 < prec ->
+  fincanon ca -> fincanon sa -> fincanon cb -> fincanon sb ->
+  quad na (rv (fst s)) -> quad nb (rv (snd s)) ->
+  close (prec + 20 + 20) (rv ca) (cos (rv (fst s))) -> close (prec + 20 + 20) (rv sa) (sin (rv (fst s))) ->
+  close (prec + 20 + 20) (rv cb) (cos (rv (snd s))) -> close (prec + 20 + 20) (rv sb) (sin (rv (snd s))) ->
+  let Sv := snd (mpi_cos_sin_from s (ca, sa, na) (cb, sb, nb) (prec + 20)) in
+  ((0 < rv (fst Sv))%R \/ (rv (snd Sv) < 0)%R) ->
+  exists r, mpi_cot_from s (ca, sa, na) (cb, sb, nb) prec = Ok r /\ in_iv r (cos t / sin t) /\ valid_iv r.
+Proof. exact mpi_cot_contains. Qed.
+(* the extremum logic on exact inputs: [1, 2] spans pi/2 (quadrants 0 and 1), so sin's upper end becomes 1 *)
+Example C14_sin_max_inside :
+  snd (snd (mpi_cos_sin_from (fone, ftwo) (Mpf 0 9 (-4) 4, Mpf 0 27 (-5) 5, 0) (Mpf 1 13 (-5) 4, Mpf 0 29 (-5) 5, 1) 10)) = fone.
+Proof. vm_compute. reflexivity. Qed.
+
+(* general real power exp(t ln s) and cosh/sinh, by composition; the point values are inputs as above *)
+From MP Require Import Proofs.IvCompose.
+Theorem C14_pow_general_contains : forall s t la lb ea eb prec x y, valid_iv s -> valid_iv t -> in_iv s x -> in_iv t y ->
+  (0 < rv (fst s))%R -> 0 < prec -> fincanon la -> fincanon lb -> fincanon ea -> fincanon eb ->
+  close (prec + 20 + 20) (rv la) (ln (rv (fst s))) -> close (prec + 20 + 20) (rv lb) (ln (rv (snd s))) ->
+  let v := mpi_pow_v t la lb prec in
+  close (prec + 20) (rv ea) (exp (rv (fst v))) -> close (prec + 20) (rv eb) (exp (rv (snd v))) ->
+  in_iv (mpi_pow_from t la lb ea eb prec) (Rpower x y) /\ valid_iv (mpi_pow_from t la lb ea eb prec).
+Proof. exact mpi_pow_contains. Qed.
+Theorem C14_cosh_sinh_contains : forall s va vb prec x, valid_iv s -> in_iv s x -> 0 < prec -> fincanon va -> fincanon vb ->
+  close (prec + 20 + 20) (rv va) (exp (rv (fst s))) -> close (prec + 20 + 20) (rv vb) (exp (rv (snd s))) ->
+  exists c sh, mpi_cosh_sinh_from s va vb prec = Ok (c, sh) /\
+    (in_iv c (cosh x) /\ valid_iv c) /\ (in_iv sh (sinh x) /\ valid_iv sh).
+Proof. exact mpi_cosh_sinh_contains. Qed.
+Print Assumptions C14_cosh_sinh_contains.
